@@ -83,6 +83,7 @@ def run(ctx):
     s.holomorphy(("_calc_energy",))
     s.restricted_consumes_trial_data("energy")
     s.cholesky_axis_complete(("_calc_energy",))
+    s.estimator_sees_the_trial("energy")
     s.rhf_restricted_vs_unrestricted("energy")
     s.cisd_vs_faster()
     s.noci_vs_uhf()
